@@ -33,6 +33,16 @@ def stepLine (line : String) : String :=
     let r2 := r1.1.readOnlyStep nowN
     let outs := r2.2.map (fun o => match o with | .served t => s!"served.{t}" | .invalidLease t => s!"invalid.{t}")
     s!"{showNode r2.1} | {showEffects r0.2} | applied={joinList r1.2} outs={joinList outs}"
+  | ["ISA", now, node, req] =>
+    match (parseNode node).installA (natOr now) (parseISReq req) with
+    | none => "err"
+    | some (n', r, eff, nx) => s!"{showISResp r} | {showNode n'} | {showEffects eff} | next={showISNext nx}"
+  | ["ISB", node, req] =>
+    let r := (parseNode node).installB (parseISReq req)
+    s!"{showNode r.1} | {showEffects r.2}"
+  | ["ISC", now, node, req] =>
+    let r := (parseNode node).installC (natOr now) (parseISReq req)
+    s!"{showNode r.1} | {showEffects r.2}"
   | ["ECHO", node] => showNode (parseNode node)
   | ["QUORUM", cfg, count] => showBool ((parseConfig cfg).hasQuorum (natOr count))
   | ["ELECTION", now, node] =>
